@@ -627,6 +627,12 @@ def _challenge_and_response(ctx, case, entry, klass, rng, *, data, dcpath, dc_ob
     dev_uuid = uuid if any(uuid) else core.rand_bytes(rng, 16)
     challenge = core.pick(rng, [None, None, None, bytes(32), b"\xff" * 32]) or core.rand_bytes(rng, 32)
     dacv = version if klass != "ele2" else (2, 0)
+    cross = klass == "ele" and rng.random() < 0.35
+    if cross:
+        # EdgeLock-enclave parts do not compare the protocol version of challenge and credential: a challenge may announce the
+        # other major version.  The response still belongs to its CREDENTIAL: layout and signed message follow the
+        # credential's protocol version
+        dacv = core.pick(rng, [(2, 0), (2, 1), (2, 2)] if version[0] == 1 else [(1, 0), (1, 1)])
     dac = None
     if facts is None:
         ctx.count("dac_layout_ambiguous_socc")
@@ -653,7 +659,12 @@ def _challenge_and_response(ctx, case, entry, klass, rng, *, data, dcpath, dc_ob
             try:
                 dac.validate_against_dc(family, dc_obj)
                 ctx.count("dac_validate_accept")
+                if cross:
+                    ctx.count("dac_other_major_version_accepted")
             except SPSDKError as e:
+                if cross:
+                    ctx.count("dac_other_major_version_refused")
+                    return dac, dev_uuid, challenge  # a refusal of the odd pair is fine; nothing more to judge
                 if klass == "ele2" and dc_obj.socc == 0 and entry["socc"] != 0 and "SOCC" in str(e):
                     _viol(ctx, K_V2_SOCC, dict(witness, where="validate_against_dc rejects the device's own challenge", error=core.exc_brief(e)))
                     return dac, dev_uuid, challenge  # every further validate call would stop at the same SOCC comparison
